@@ -215,18 +215,29 @@ func confContent(p *Program, id string) []Obligation {
 		return append(out, missing(id, "(*Raft).nextConfiguration")...)
 	}
 	stateAtom := p.StateAtom()
-	sp := NewSpace(stateAtom, BoolAtom("selfInNext", "p0.Members[r.id]#1"))
+	sp := NewSpace(stateAtom, BoolAtom("selfInNext", "p0.Members[r.id]#1"), CmpAtom("configuration?next", "r.configuration", "p0"))
 	a := NewAnalysis(p, sp)
 	a.Hook = func(a *Analysis, f *Frame, in ssa.Instruction, st State) State {
 		if _, ok := exitPoint(in); ok && f.Parent == nil {
 			a.Observe("REMOVED-STEPDOWN exit of (*Raft).nextConfiguration", f, in, st)
 		}
+		// the switch itself happens in a deferred function: look at the state after the defers ran
+		if _, ok := in.(*ssa.Return); ok && f.Parent == nil {
+			a.Observe("CONF-SWITCH configuration in force at return of (*Raft).nextConfiguration", f, in, st)
+		}
 		return st
 	}
 	a.Run(nc, nil)
 	L := enumIdx(stateAtom, "Leader")
-	out = append(out, evalObs(a, id, a.SortedObs(), func(_ *Observation, pt int) bool { return !(sp.Val(pt, 0) == L && sp.Val(pt, 1) == 0) }, nil,
-		"a leader that is not a member of the configuration it switches to steps down")...)
+	for _, o := range a.SortedObs() {
+		if strings.HasPrefix(o.Key, "CONF-SWITCH") {
+			out = append(out, evalObs(a, id, []*Observation{o}, func(_ *Observation, pt int) bool { return sp.Val(pt, 2) == EQ }, []int{2},
+				"nextConfiguration(next) leaves r.configuration = next on every return")...)
+			continue
+		}
+		out = append(out, evalObs(a, id, []*Observation{o}, func(_ *Observation, pt int) bool { return !(sp.Val(pt, 0) == L && sp.Val(pt, 1) == 0) }, []int{0, 1},
+			"a leader that is not a member of the configuration it switches to steps down")...)
+	}
 	return out
 }
 
